@@ -23,7 +23,8 @@ RULE = ("option matrix {-q | -r file} x {-f file | stdin} x {stdout | -o file} x
         "with patched argv/stdin/stdout/stderr. Oracle: success => exit 0 and the output is one JSON array type-exactly equal to "
         "find(query, document).values() computed in-process, identical with and without --pretty; failure => non-zero exit, nothing on "
         "stdout / an empty output file, and without --debug exactly one diagnostic line on stderr and no traceback. Non-trivial: a "
-        "failure case, or a success with a non-empty result; distinct by (argv shape, query, document).")
+        "failure case, or a success with a non-empty result; distinct by (argv shape, query, document)."
+        " Documents are also given as UTF-16/UTF-32/BOM-prefixed files (json.load auto-detection), query files contain names with runs of blanks, and evaluations that overflow the interpreter stack (comparison of two equal values nested 450-900 deep) must fail gracefully.")
 ASSUMPTIONS = ["stdin is decoded by the interpreter's locale layer, so undecodable bytes are only given via -f (binary)",
                "query files hold the query plus at most one trailing newline (the CLI strips the file content)",
                "argparse usage errors (missing files) are only required to exit non-zero without a traceback"]
